@@ -220,6 +220,13 @@ func (fr *Frame) rangeNext(x *ssa.Next, st *State, pc Term) Value {
 		mt := it.T.(*types.Map)
 		ks := mapKeySort(mt)
 		visited := st.ghost[it.Key]
+		if u.forcedKey != nil {
+			// order-independence check: this iteration processes the given key
+			kv := *u.forcedKey
+			k := u.mapKeyTerm(mt, kv)
+			st.ghost[it.Key] = u.c.Def("visited", Store(visited, k, TTrue))
+			return TupleV{V: []Value{Scalar{TTrue}, kv, u.mapLoadVal(st, mt, it.M, k)}}
+		}
 		kv := u.m.FreshValue(st, "next_key", mt.Key())
 		k := u.mapKeyTerm(mt, kv)
 		dom := u.mapDom(st, mt, it.M)
